@@ -105,6 +105,18 @@ def r1_ssa_lowering(rule, root=None):
             continue
         f = A.strip(body["func"])
         got_slot = f.get("member") if f.get("k") == "Field" else None
+        if got_slot is None and A.ident(f):
+            # `let (rr, ri, ir) = match op { .. };` names the three slots
+            for lt in A.find(fn["body"], "Let"):
+                init_ = lt.get("init")
+                if init_ is not None and A.ident(A.strip(init_)):
+                    # `let (rr, ri, ir) = f;` where `let f = match op { .. }`
+                    src = [l2 for l2 in A.find(fn["body"], "Let") if A.binding_name(l2["pat"]) == A.ident(A.strip(init_)) and l2.get("init") is not None]
+                    init_ = src[0]["init"] if len(src) == 1 else init_
+                if lt["pat"].get("k") == "PTuple" and len(lt["pat"]["elems"]) == 3 and init_ is not None and O.match_on(init_, "BinaryOpcode", min_arms=6):
+                    nms = [A.binding_name(x) for x in lt["pat"]["elems"]]
+                    if A.ident(f) in nms:
+                        got_slot = str(nms.index(A.ident(f)))
         args = [A.ident(A.strip(a)) for a in body["args"]]
         if kinds == ["Reg", "Reg"]:
             want_args = [names[0], names[1]]
